@@ -1,7 +1,7 @@
 /-
 Shape tie (Observe): the state the model carries is exactly the state the Rust structs carry.
-`Generated/Shapes.lean` is re-read from /repo/src on every run (field names, declaration order, types
-as written). The model was written against the field lists below – `Model/Observe.lean`: `Observer` = (endpoint, token, unacked, mid); `Resource` = (observers, sequence); `Subject` = (resources, limit).
+`Generated/Shapes.lean` is re-read from /repo/src on every run (field names, types as written up to
+module paths and lifetimes; order is irrelevant). The model was written against the field lists below – `Model/Observe.lean`: `Observer` = (endpoint, token, unacked, mid); `Resource` = (observers, sequence); `Subject` = (resources, limit).
 A field added to, removed from or retyped in one of these structs (a memo, a marker, a digest instead
 of the data, a narrower counter) makes the corresponding `rfl` fail: the hand-written model then no
 longer accounts for all the state of the code, whatever the correspondence runs happen to explore.
@@ -11,12 +11,12 @@ import CoapLite.Generated.Shapes
 namespace CoapLite.ShapeTie
 
 theorem observer : Shapes.observer =
-    [("endpoint", "Endpoint"), ("token", "Vec<u8>"), ("unacknowledged_messages", "u16"), ("message_id", "Option<u16>")] := rfl
+    [("endpoint", "Endpoint"), ("message_id", "Option<u16>"), ("token", "Vec<u8>"), ("unacknowledged_messages", "u16")] := rfl
 
 theorem resource : Shapes.resource =
     [("observers", "Vec<Observer<Endpoint>>"), ("sequence", "u32")] := rfl
 
 theorem subject : Shapes.subject =
-    [("resources", "BTreeMap<ResourcePath,Resource<Endpoint>>"), ("unacknowledged_limit", "u8"), ("phantom", "PhantomData<Endpoint>")] := rfl
+    [("phantom", "PhantomData<Endpoint>"), ("resources", "BTreeMap<ResourcePath,Resource<Endpoint>>"), ("unacknowledged_limit", "u8")] := rfl
 
 end CoapLite.ShapeTie
